@@ -192,13 +192,20 @@ class VThread:
 class Scheduler:
 
     def __init__(self, choices=None, now=1000.0, max_steps=20000,
-                 horizon=None, timer_deviation=True, log=None):
+                 horizon=None, timer_deviation=True, log=None,
+                 delay_model=False):
         self.choices = choices or Choices()
         self.now = now
         self.t0 = now
         self.max_steps = max_steps
         self.horizon = horizon            # absolute virtual time or None
         self.timer_deviation = timer_deviation
+        # cost model: 'preemption' (switching away from a runnable vthread
+        # costs 1, the choice after a block is free) or 'delay' (every
+        # departure from the canonical deterministic scheduler costs 1 --
+        # delay-bounded scheduling; needed once >3 vthreads make the free
+        # choices themselves explode)
+        self.delay_model = delay_model
         self.threads = []
         self.steps = 0
         self.last = None
@@ -212,6 +219,7 @@ class Scheduler:
         self.error = None
         self._until = None
         self.intr_handler = None          # f(vt): run pending signal handlers
+        self.optrace = None               # set to [] to record every step
 
     # ------------------------------------------------------------ vthreads
     def spawn(self, fn, name=None, pid=None, daemon=False):
@@ -382,6 +390,11 @@ class Scheduler:
         if r is not None:
             self.last = r[0]
             self.steps += 1
+            if self.optrace is not None:
+                p = r[0].pending
+                self.optrace.append((round(self.now - self.t0, 3), r[0].name,
+                                     p.op if p else None,
+                                     repr(p.obj)[:60] if p else None, r[1]))
         return r
 
     def _pick1(self):
@@ -416,7 +429,8 @@ class Scheduler:
                 en.remove(last)
                 en.insert(0, last)
             alts = [(t, None) for t in en]
-            costs = [0] + [1 if running_enabled else 0] * (len(en) - 1)
+            costs = [0] + [1 if (running_enabled or self.delay_model)
+                           else 0] * (len(en) - 1)
             if self.timer_deviation:
                 for t in live:
                     if t.state == 'parked' and t not in en and \
